@@ -65,7 +65,8 @@ FIX_COMMITS = ["d6ae502 (passive start-up cancellation: port/listener leak)",
                "30288fd (second of two waiting transfers crashed the session)",
                "913f430 (stat() fallback without MLST failed for '.', '..' and '')",
                "25ab17f (unreadable directory listed as empty with a success reply)",
-               "dfd8374 (ThrottleStreamIO default throttles dict shared by all streams)"]
+               "dfd8374 (ThrottleStreamIO default throttles dict shared by all streams)",
+               "b02d52b (repr() of a User showed the password)"]
 
 # dimensions added after the fourth wave of seeded changes (plug-in APIs as part of the input space)
 EXTRA = {
